@@ -457,9 +457,19 @@ package mpb
 //@   ensures  exact@!C08: allot(stat.RequestedWidth, stat.AvailableWidth) > s.components[iLbound].width + s.components[iRbound].width && result == nil
 //@              ==> dw(written(w)) == old(dw(written(w))) + allot(stat.RequestedWidth, stat.AvailableWidth)
 
+// adapter from a function to the interface: a user's function is assumed to keep the interface's
+// contract (this func-type contract); the module's own closures of this type are verified against it
+//@ functype BarFillerFunc
+//@   props    C07 C02
+//@   params   w stat
+//@   requires w != nil
+//@   requires 0 <= stat.AvailableWidth && stat.AvailableWidth <= 1<<31 && stat.RequestedWidth <= 1<<31
+//@   modifies written(w), bFiller.tip, sFiller.count
+//@   ensures  fits@!C08: dw(written(w)) - old(dw(written(w))) <= max(0, stat.AvailableWidth) && dw(written(w)) >= old(dw(written(w)))
 //@ func (BarFillerFunc).Fill
-//@   props    C07
-//@   trusted
+//@   props    C07 C02
+//@   ensures  forwarded: called("(BarFillerFunc).Fill.f") == old(called("(BarFillerFunc).Fill.f")) + 1 && calledWith("(BarFillerFunc).Fill.f", 0) == w
+//@              && calledWith("(BarFillerFunc).Fill.f", 1) == stat && result == returned("(BarFillerFunc).Fill.f", 0)
 
 // flush closures of barStyle.Build: every non-empty section goes through its meta function
 // exactly once (in reverse order when the bar is reversed)
@@ -1644,21 +1654,31 @@ package mpb
 //@   ensures  closed(done)
 
 // adapter from a user function to the interface: what it returns is the user's
-//@ func (barFillerBuilderFunc).Build
-//@   props    C02
-//@   trusted
+//@ functype barFillerBuilderFunc
 //@   modifies nothing
-//@   ensures  result != nil
+//@   ensures  okfiller(result)
+//@ func (barFillerBuilderFunc).Build
+//@   props    C02 C07
+//@   assumes  made: f != nil // values of this unexported type are made by NopStyle only, from a function literal
+//@   modifies nothing
+//@   ensures  okfiller(result) && called("(barFillerBuilderFunc).Build.f") == old(called("(barFillerBuilderFunc).Build.f")) + 1 && result == returned("(barFillerBuilderFunc).Build.f", 0)
 
 //@ iface BarFillerBuilder.Build
 //@   modifies nothing
 //@   ensures  okfiller(result)
 
 //@ func NopStyle
-//@   props    C02
-//@   trusted
+//@   props    C02 C07
 //@   modifies nothing
-//@   ensures  result != nil
+//@   ensures  result != nil && hasType(result, "barFillerBuilderFunc") && fnof(unboxAs(result, "barFillerBuilderFunc")) == fn("NopStyle$1")
+//@ func NopStyle$1
+//@   props    C02 C07
+//@   modifies nothing
+//@   ensures  okfiller(result) && hasType(result, "BarFillerFunc") && fnof(unboxAs(result, "BarFillerFunc")) == fn("NopStyle$1$1")
+//@ func NopStyle$1$1
+//@   props    C02 C07
+//@   modifies nothing
+//@   ensures  result == nil
 
 // ---------------------------------------------------------------------------------------
 // remaining helpers (C02 safety: preconditions that the zero-annotation sweep asks for)
